@@ -967,12 +967,15 @@ def respClash (d : BDir) (anc : List Up) : Bool :=
     | [] => false)
 
 theorem addResponse_eq (d : BDir) (anc : List Up) (c : Cat) : addResponse d anc c =
-    if !(d.param "SchemaNotation").isEmpty && !(d.param "Type").isEmpty then fail d .typeAndNotation
+    if d.kind == .Body && !d.annot.isEmpty then fail d .annotationForbidden
+    else if !(d.param "SchemaNotation").isEmpty && !(d.param "Type").isEmpty then fail d .typeAndNotation
     else liftAt d (newNotation (d.param "SchemaNotation")) >>= fun nt =>
       if respClash d anc then fail d .userTypeWithBody
       else respStage d anc c >>= respTail d anc nt := by
   unfold addResponse respStage respTail respClash
   simp only []
+  split
+  · rfl
   split
   · rfl
   cases liftAt d (newNotation (d.param "SchemaNotation")) with
@@ -1012,8 +1015,8 @@ theorem respTail_local (d : BDir) (anc : List Up) (nt : Bytes) (i : IId)
 theorem addResponse_local (d : BDir) (anc : List Up) (i : IId)
     (hi : ∀ j, httpIdOf (d :: anc.map (·.d)) = .ok j → j = i) : LocalAt i (addResponse d anc) := by
   refine LocalAt.congr ?_ (addResponse_eq d anc)
-  exact LocalAt.ite _ (LocalAt.err _) (LocalAt.bind_static _ (fun nt =>
-    LocalAt.ite _ (LocalAt.err _) (LocalAt.bind (respStage_local d anc i hi) (respTail_local d anc nt i hi))))
+  exact LocalAt.ite _ (LocalAt.err _) (LocalAt.ite _ (LocalAt.err _) (LocalAt.bind_static _ (fun nt =>
+    LocalAt.ite _ (LocalAt.err _) (LocalAt.bind (respStage_local d anc i hi) (respTail_local d anc nt i hi)))))
 
 theorem addBody_local (d : BDir) (anc : List Up) (i : IId)
     (hi : ∀ j, httpIdOf (d :: anc.map (·.d)) = .ok j → j = i) : LocalAt i (addBody d anc) := by
